@@ -5,6 +5,7 @@ import re
 import time
 import z3
 from .mir import Mir
+from .sym import InfiniteLanguage
 from .sym import (Exec, State, SymStr, ListV, TupV, EnumV, RefV, ClosV, IterV, Opaque, Inconclusive, UNIT, lit, concrete,
                   BV, Outcome)
 from . import models as M
@@ -84,7 +85,8 @@ class Ctx:
         return self.known_counts.get(qid.split('[')[0], 0) + 8 + self.extra_cap
 
     def new_exec(self, extra_models=()):
-        return Exec(self.mir, list(extra_models) + MODELS2 + BASE_MODELS, max_steps=getattr(self, 'max_steps', 2_000_000))
+        return Exec(self.mir, list(extra_models) + MODELS2 + BASE_MODELS + [(P(r'^<str as UnicodeSegmentation>::graphemes$'), m_graphemes_default)],
+                    max_steps=getattr(self, 'max_steps', 2_000_000))
 
     def finish(self, ob, ex, t0):
         ob.exec_s = time.time() - t0
@@ -112,6 +114,10 @@ def guarded(run):
         except KeyError as e:
             ob = Obligation(run.__name__, run.__doc__ or '')
             ob.inconclusive = 'MIR body not found: %s' % e
+            return ob
+        except InfiniteLanguage as e:
+            ob = Obligation(run.__name__, run.__doc__ or '')
+            ob.inconclusive = 'encoder: %s (this obligation has no finite-language reading of it)' % e
             return ob
     w.__name__ = run.__name__
     w.__doc__ = run.__doc__
@@ -720,6 +726,15 @@ def make_gc_models(ctx):
             (P(r'^GeneralCategory::is_other$'), m_is_other)]
 
 
+def m_graphemes_default(ex, st, fr, callee, a, depth):
+    """lowest-priority model of UnicodeSegmentation::graphemes: a string of at most one code point is (at most) one cluster; longer strings
+    need an obligation-specific stub, because where cluster boundaries fall between ARBITRARY code points is not modelled"""
+    s_ = as_str(st, a[0])
+    if len(s_.items) <= 1:
+        return IterV('list', items=(a[0],) if s_.items else ())
+    raise Inconclusive('grapheme clusters of arbitrary code points (UnicodeSegmentation::graphemes on a string of %d code points)' % len(s_.items))
+
+
 def m_graphemes_one_cluster(ex, st, fr, callee, a, depth):
     """stub: UnicodeSegmentation::graphemes(s, true) yields s itself -- the input is ASSUMED to be one extended grapheme cluster"""
     return IterV('list', items=(a[0],))
@@ -1205,7 +1220,7 @@ def q11k(ctx, n=1, realisable=False):
     ob.bound = 'units of exactly %d code point(s)' % n
     cs = [z3.BitVec('c%d' % i, 32) for i in range(n)]
     esc = z3.Bool('esc')
-    ex = ctx.new_exec()
+    ex = ctx.new_exec([(P(r'^<str as UnicodeSegmentation>::graphemes$'), m_graphemes_one_cluster)] if (realisable and n > 1) else [])
     fn = ctx.mir.one_fn(r'^grapheme::<impl at [^>]*>::char_count$')
     assume = [valid_char(c) for c in cs]
     if realisable and n > 1:
@@ -2349,7 +2364,7 @@ def expression_language(st, e, limit=3000):
     if v == 'Repetition':
         q = deref(st, e.fields[1])
         if q.variant != 'QuestionMark':
-            raise Inconclusive('Kleene star in the expression of an acyclic automaton')
+            raise InfiniteLanguage('Kleene star in the expression of an acyclic automaton')
         return expression_language(st, e.fields[0], limit) + [[]]
     raise Inconclusive('expression variant ' + v)
 
@@ -2416,7 +2431,12 @@ def q16e(ctx, shape=(2, 2), letters=False, minimized=True):
                 bads.append(z3.And(*o2.st.pc))
                 ob.classes_seen['panic'] = ob.classes_seen.get('panic', 0) + 1
                 continue
-            words = expression_language(o2.st, o2.val)
+            try:
+                words = expression_language(o2.st, o2.val)
+            except InfiniteLanguage:
+                ob.classes_seen['unbounded-quantifier'] = ob.classes_seen.get('unbounded-quantifier', 0) + 1
+                bads.append(z3.And(*o2.st.pc))
+                continue
             cls = expr_shape(o2.st, o2.val)
             ob.classes_seen[cls] = ob.classes_seen.get(cls, 0) + 1
             bads.append(z3.And(*o2.st.pc, z3.Not(set_eq(dfa_words, words))))
@@ -2484,7 +2504,12 @@ def q02e(ctx, lens=(2, 2), with_empty=False, clause='exact', repetitions=False):
             ob.classes_seen['panic'] = ob.classes_seen.get('panic', 0) + 1
             continue
         ast = deref(o.st, o.val).get('ast')
-        words = expression_language(o.st, ast)
+        try:
+            words = expression_language(o.st, ast)
+        except InfiniteLanguage:
+            ob.classes_seen['unbounded-quantifier'] = ob.classes_seen.get('unbounded-quantifier', 0) + 1
+            bads.append(z3.And(*o.st.pc))
+            continue
         cls = expr_shape(o.st, ast)
         ob.classes_seen[cls] = ob.classes_seen.get(cls, 0) + 1
         if clause == 'exact':
@@ -2523,7 +2548,7 @@ def q05g(ctx, n=2, ranged=False, realisable=False, all_counts=False):
         ob.domain += REALISABLE_NOTE
     variants = ctx.mir.enums.get('Expression')
     fn = display_fmt_name(ctx, 'Expression')
-    ex = ctx.new_exec()
+    ex = ctx.new_exec([(P(r'^<str as UnicodeSegmentation>::graphemes$'), m_graphemes_one_cluster)] if (realisable and n > 1) else [])
     t0 = time.time()
     bads = []
     npaths = 0
@@ -2651,7 +2676,7 @@ class PatternParser:
             self.i += 1
             return a + [[]]
         if self.at('*') or self.at('+'):
-            raise Inconclusive('unbounded quantifier in the printed pattern')
+            raise InfiniteLanguage('unbounded quantifier in the printed pattern')
         if self.at('{'):
             j = self.i + 1
             txt = ''
@@ -2826,7 +2851,12 @@ def q02t(ctx, lens=(2, 2), with_empty=False, domain='letters', settings=None):
             if (settings.get('capture') and noncap) or (not settings.get('capture') and len(noncap) != len(opens)):
                 bads.append(z3.And(*o2.st.pc))
                 continue
-            words, start, end = PatternParser(ex, o2.st, items, ctx.oracle).parse()
+            try:
+                words, start, end = PatternParser(ex, o2.st, items, ctx.oracle).parse()
+            except InfiniteLanguage:
+                ob.classes_seen['unbounded-quantifier'] = ob.classes_seen.get('unbounded-quantifier', 0) + 1
+                bads.append(z3.And(*o2.st.pc))
+                continue
             if start != (not settings.get('no_start_anchor')) or end != (not settings.get('no_end_anchor')):
                 bads.append(z3.And(*o2.st.pc))
                 continue
@@ -2992,11 +3022,11 @@ def make_regex_search_models(ctx):
 
 
 @guarded
-def q08s(ctx, lens=(2, 1), settings=None, domain='letters'):
+def q08s(ctx, lens=(2, 1), settings=None, domain='letters', runs=None):
     """Q08s: with an anchor disabled, a leftmost-first search of every test case with the printed pattern returns the whole test case"""
     settings = dict(settings or {})
     stag = ''.join('[%s]' % k for k in sorted(settings) if settings[k])
-    ob = Obligation('Q08s[%s]%s' % (','.join(map(str, lens)), stag), q08s.__doc__)
+    ob = Obligation('Q08s[%s]%s%s' % (','.join(map(str, lens)), stag, '[runs=%s]' % ','.join(map(str, runs)) if runs else ''), q08s.__doc__)
     ob.domain = ('%d test cases of %s letters a..z (every equality pattern); settings: %s; RegExp::from (with its self-check against the '
                  'regex engine, modelled by the leftmost-first matcher) and Display for RegExp from MIR' % (
                      len(lens), '/'.join(map(str, lens)), ', '.join(k for k in sorted(settings) if settings[k])))
@@ -3004,9 +3034,14 @@ def q08s(ctx, lens=(2, 1), settings=None, domain='letters'):
     cases = [[z3.BitVec('s%d_%d' % (i, j), 32) for j in range(n)] for i, n in enumerate(lens)]
     allv = [v for c in cases for v in c]
     assume = [z3.And(z3.UGE(v, BV(0x61, 32)), z3.ULE(v, BV(0x7A, 32))) for v in allv]
+    if runs:
+        # template: the listed test cases consist of ONE repeated letter (what conversion of repetitions turns into x{n})
+        for i_ in runs:
+            assume += [cases[i_][j_] == cases[i_][0] for j_ in range(1, len(cases[i_]))]
+        ob.domain += '; test case(s) %s consist of one repeated letter' % ', '.join(str(i_ + 1) for i_ in runs)
     fields = ctx.mir.structs.get('RegExpConfig')
     off = {k: (BV(1, 32) if k.startswith('minimum_') else z3.BoolVal(False)) for k in fields}
-    names = {'repetitions': 'is_repetition_converted', 'capture': 'is_capturing_group_enabled',
+    names = {'repetitions': 'is_repetition_converted', 'capture': 'is_capturing_group_enabled', 'verbose': 'is_verbose_mode_enabled',
              'no_start_anchor': 'is_start_anchor_disabled', 'no_end_anchor': 'is_end_anchor_disabled'}
     for k, val in settings.items():
         if k not in names:
@@ -3039,6 +3074,12 @@ def q08s(ctx, lens=(2, 1), settings=None, domain='letters'):
             items = list(o2.st.load(buf).items)
             cls = re.sub(r'<[^>]*>', 'x', ''.join(chr(concrete(x)) if concrete(x) is not None else 'x' for x in items))
             ob.classes_seen[cls] = ob.classes_seen.get(cls, 0) + 1
+            if settings.get('verbose'):
+                head = [ord(ch) for ch in '(?x)']
+                if cps(items[:len(head)]) != head:
+                    bads.append(z3.And(*o2.st.pc))
+                    continue
+                items = strip_verbose_whitespace(items[len(head):])
             words, sa, ea = pattern_words(ex, o2.st, items, ctx.oracle)
             if sa != (not settings.get('no_start_anchor')) or ea != (not settings.get('no_end_anchor')):
                 bads.append(z3.And(*o2.st.pc))
@@ -3206,7 +3247,7 @@ def q08u(ctx, skeleton, settings=None, second_ast='same', kinds=None, orders=Fal
     fields = ctx.mir.structs.get('RegExpConfig')
     off = {k: (BV(1, 32) if k.startswith('minimum_') else z3.BoolVal(False)) for k in fields}
     names = {'capture': 'is_capturing_group_enabled', 'no_start_anchor': 'is_start_anchor_disabled', 'no_end_anchor': 'is_end_anchor_disabled',
-             'digits': 'is_digit_converted'}
+             'digits': 'is_digit_converted', 'verbose': 'is_verbose_mode_enabled'}
     for k, val in settings.items():
         if k not in names:
             raise Inconclusive('setting %s is not supported by Q08u' % k)
@@ -3335,6 +3376,12 @@ def q08u(ctx, skeleton, settings=None, second_ast='same', kinds=None, orders=Fal
             base_paths.append((o2.st, items))
             if orders:
                 continue
+            if settings.get('verbose'):
+                head = [ord(ch) for ch in '(?x)']
+                if cps(items[:len(head)]) != head:
+                    bads.append(z3.And(*o2.st.pc))
+                    continue
+                items = strip_verbose_whitespace(items[len(head):])
             words, sa, ea = pattern_words(ex, o2.st, items, ctx.oracle)
             if sa != (not settings.get('no_start_anchor')) or ea != (not settings.get('no_end_anchor')):
                 bads.append(z3.And(*o2.st.pc))
@@ -3477,11 +3524,12 @@ def q03t(ctx, lens=(2,), flagset=('digits',), domain='printable'):
 
 # =========================================================================== Q10h  the output does not depend on hash iteration order
 @guarded
-def q10h(ctx, lens=(2, 1), settings=None):
+def q10h(ctx, lens=(2, 1), settings=None, domain='letters', shared_prefix=False, fixed=None):
     """Q10h: build() prints the same text whatever order HashSet / HashMap iteration takes (per-process hash seeds)"""
     settings = dict(settings or {})
     stag = ''.join('[%s]' % k for k in sorted(settings) if settings[k])
-    ob = Obligation('Q10h[%s]%s' % (','.join(map(str, lens)), stag), q10h.__doc__)
+    ob = Obligation('Q10h[%s]%s%s%s' % (','.join(map(str, lens)), stag, '' if domain == 'letters' else '[%s]' % domain, ('[paired-prefixes]' if shared_prefix else '') +
+                    ('[fixed=%s]' % ','.join('%d.%d=%s' % (i_, j_, c_) for (i_, j_), c_ in sorted(fixed.items())) if fixed else '')), q10h.__doc__)
     policies = ['insertion', 'reverse', 'rotate']
     ob.domain = ('%d test cases of %s letters a..z (every equality pattern); settings: %s; RegExp::from and Display for RegExp are run once per '
                  'hash-order policy -- every HashSet / HashMap iteration (iter, into_iter, intersection, difference) yields its entries in '
@@ -3490,9 +3538,27 @@ def q10h(ctx, lens=(2, 1), settings=None):
     ob.bound = 'exactly these lengths; 3 of the n! iteration orders of every hash container'
     cases = [[z3.BitVec('s%d_%d' % (i, j), 32) for j in range(n)] for i, n in enumerate(lens)]
     allv = [v for c in cases for v in c]
-    assume = [z3.And(z3.UGE(v, BV(0x61, 32)), z3.ULE(v, BV(0x7A, 32))) for v in allv]
+    if domain == 'letters':
+        assume = [z3.And(z3.UGE(v, BV(0x61, 32)), z3.ULE(v, BV(0x7A, 32))) for v in allv]
+    elif domain == 'alnum-colon':
+        # 0-9 : ; A-Z a-z : word characters on both sides of two non-word characters, none of them a regex metacharacter
+        assume = [z3.And(z3.UGE(v, BV(0x30, 32)), z3.ULE(v, BV(0x7A, 32))) for v in allv]
+        assume += [z3.Or(z3.ULE(v, BV(0x3B, 32)), z3.And(z3.UGE(v, BV(0x41, 32)), z3.ULE(v, BV(0x5A, 32))), z3.UGE(v, BV(0x61, 32))) for v in allv]
+        ob.domain = ob.domain.replace('letters a..z', 'characters from 0-9 : ; A-Z a-z')
+    else:
+        raise Inconclusive('domain ' + domain)
+    if fixed:
+        # positions the mechanism does not depend on are concrete (stated in the obligation's name)
+        for (i_, j_), c_ in fixed.items():
+            assume.append(cases[i_][j_] == BV(ord(c_), 32))
+        ob.domain += '; fixed characters: ' + ', '.join('test case %d position %d = %r' % (i_ + 1, j_ + 1, c_) for (i_, j_), c_ in sorted(fixed.items()))
+    if shared_prefix:
+        # test cases 2k and 2k+1 start with the same character: two states with two outgoing edges each
+        for a_ in range(0, len(cases) - 1, 2):
+            assume.append(cases[a_][0] == cases[a_ + 1][0])
+        ob.domain += '; test cases 1+2, 3+4, ... share their first character'
     fields = ctx.mir.structs.get('RegExpConfig')
-    names = {'repetitions': 'is_repetition_converted', 'verbose': 'is_verbose_mode_enabled', 'capture': 'is_capturing_group_enabled',
+    names = {'repetitions': 'is_repetition_converted', 'words': 'is_word_converted', 'digits': 'is_digit_converted', 'verbose': 'is_verbose_mode_enabled', 'capture': 'is_capturing_group_enabled',
              'no_start_anchor': 'is_start_anchor_disabled', 'no_end_anchor': 'is_end_anchor_disabled'}
     ex = ctx.new_exec([(P(r'^<str as UnicodeSegmentation>::graphemes$'), m_graphemes_per_letter)] + make_regex_search_models(ctx) +
                       make_gc_models(ctx) + make_regex_models(ctx, lambda x: orbit_rep(ctx, x)))
@@ -3806,6 +3872,8 @@ def make_io_models(env_):
     def m_fs_read(ex, st, fr, callee, a, depth):
         env_['used'].add('file')
         env_['opened'].append(a[0])
+        if env_.get('opened_cell') is not None:
+            st.store(env_['opened_cell'], SymStr(as_str(st, a[0]).items))
         if env_['file'] is None:
             return EnumV('Result', 'Err', 1, (Opaque('ioerror', 'NotFound'),))
         return EnumV('Result', 'Ok', 0, (SymStr(env_['file']),))
@@ -3818,7 +3886,9 @@ def make_io_models(env_):
 
     def m_str_trim(ex, st, fr, callee, a, depth):
         s_ = list(as_str(st, a[0]).items)
-        ws = lambda x: z3.Or(*[x == BV(c, 32) for c in (9, 10, 11, 12, 13, 32, 0x85, 0xA0)])
+        # char::is_whitespace = Unicode White_Space
+        ws = lambda x: z3.Or(*[x == BV(c, 32) for c in (9, 10, 11, 12, 13, 32, 0x85, 0xA0, 0x1680, 0x2028, 0x2029, 0x202F, 0x205F, 0x3000)] +
+                             [z3.And(z3.UGE(x, BV(0x2000, 32)), z3.ULE(x, BV(0x200A, 32)))])
         outs = []
         work = [(st, 0, len(s_))]
         while work:
@@ -3903,6 +3973,26 @@ def q12i(ctx, channel, k=2, m=2):
         vars_ += path
         ob.domain = ('grex -f FILE: the file holds %d test cases of %d arbitrary code points (no line feed inside, not ending in a carriage return) joined by %s, %s final line ending' % (
             k, m, 'CR LF' if 'crlf' in channel else 'LF', 'with a' if channel.endswith('final') else 'without'))
+    elif channel in ('file-on-stdin', 'file-on-stdin-nl'):
+        # grex -f - : the FILE NAME arrives on standard input (optionally followed by a line feed), the file holds the test cases
+        lines, asm = sym_lines('t', k, m, False)
+        assume += asm + [z3.Not(env_['is_terminal'])]
+        content = []
+        for i, l in enumerate(lines):
+            if i:
+                content += [BV(10, 32)]
+            content += l
+        env_['file'] = content
+        path = [z3.BitVec('p%d' % i, 32) for i in range(2)]
+        ws_ = lambda x: z3.Or(*[x == BV(c, 32) for c in (9, 10, 11, 12, 13, 32, 0x85, 0xA0, 0x1680, 0x2028, 0x2029, 0x202F, 0x205F, 0x3000)] + [z3.And(z3.UGE(x, BV(0x2000, 32)), z3.ULE(x, BV(0x200A, 32)))])
+        assume += [z3.And(valid_char(x), z3.Not(ws_(x))) for x in path]
+        env_['stdin_text'] = path + ([BV(10, 32)] if channel.endswith('-nl') else [])
+        env_['expected_path'] = path
+        cli_input, file_path = [], EnumV('Option', 'Some', 1, (SymStr(dash),))
+        expected = ('ok', lines)
+        vars_ += path
+        ob.domain = ('grex -f - with the file name (2 non-blank code points%s) on piped stdin; the file holds %d test cases of %d arbitrary code points joined by LF' % (
+            ', followed by a line feed' if channel.endswith('-nl') else '', k, m))
     elif channel == 'file-missing':
         path = [z3.BitVec('p%d' % i, 32) for i in range(2)]
         assume += [valid_char(x) for x in path]
@@ -3928,6 +4018,7 @@ def q12i(ctx, channel, k=2, m=2):
         else:
             vals.append(z3.Bool('cli_' + f))
     cli = st.ref(TupV(vals, fields, 'Cli'))
+    env_['opened_cell'] = st.ref(SymStr((BV(0, 32),)))        # overwritten by the fs stub with the path that is opened
     t0 = time.time()
     outs = ex.run_fn(st, ctx.bin_mir.one_fn(r'^obtain_input$'), [cli])
     ctx.finish(ob, ex, t0)
@@ -3949,9 +4040,80 @@ def q12i(ctx, channel, k=2, m=2):
             continue
         got = [list(as_str(o.st, x).items) for x in deref(o.st, r.fields[0]).items]
         bads.append(z3.And(*o.st.pc, z3.Not(same_lists(got, expected[1]))))
+        if env_.get('expected_path') is not None:
+            # the file that was opened is the one named on stdin
+            opened = [list(o.st.load(env_['opened_cell']).items)]
+            bads.append(z3.And(*o.st.pc, z3.Not(same_lists(opened, [env_['expected_path']]))))
     allv = [v for l in (cli_input if channel == 'args' else (env_['stdin_lines'] if channel == 'stdin' else (lines if channel.startswith('file-') and channel != 'file-missing' else []))) for v in l]
+
     ob.verdict = decide(ob.qid, assume + ob.defs, z3.Or(*bads) if bads else z3.BoolVal(False), allv + vars_ + [env_['is_terminal']], all_sat=True,
                         max_models=ctx.cap('Q12i'), second=ctx.second, workdir=ctx.workdir, second_timeout_s=getattr(ctx, 'second_timeout', 60),
                         block_vars=allv or None)
     ob.extra['environment_stubs_used'] = sorted(env_['used'])
+    return ob
+
+
+# =========================================================================== Q12f  the library's from_file behaves like from() on the file's lines
+@guarded
+def q12f(ctx, variant='lf', k=2, m=2):
+    """Q12f: RegExpBuilder::from_file(path) holds exactly the lines of the file as its test cases (like from() on them); a missing file panics with the documented message"""
+    ob = Obligation('Q12f[%s]' % variant, q12f.__doc__)
+    env_ = {'is_terminal': z3.BoolVal(True), 'stdin_lines': [], 'stdin_text': [], 'file': None, 'used': set(), 'opened': [], 'opened_cell': None}
+    assume = []
+    lines = []
+    for i in range(k):
+        l = [z3.BitVec('t%d_%d' % (i, j), 32) for j in range(m)]
+        assume += [z3.And(valid_char(x), x != BV(10, 32)) for x in l] + [l[-1] != BV(13, 32)]
+        lines.append(l)
+    if variant != 'missing':
+        sep = [BV(13, 32), BV(10, 32)] if 'crlf' in variant else [BV(10, 32)]
+        content = []
+        for i, l in enumerate(lines):
+            if i:
+                content += sep
+            content += l
+        if variant.endswith('final'):
+            content += sep
+        env_['file'] = content
+    path = [z3.BitVec('p%d' % i, 32) for i in range(2)]
+    assume += [valid_char(x) for x in path]
+    ob.domain = ('from_file(PATH), PATH of 2 arbitrary code points; ' + ('reading the file fails with NotFound' if variant == 'missing' else
+                 'the file holds %d lines of %d arbitrary code points (no line feed inside, not ending in a carriage return) joined by %s, %s final line ending' % (
+                     k, m, 'CR LF' if 'crlf' in variant else 'LF', 'with a' if variant.endswith('final') else 'without')))
+    ob.bound = '%d lines of %d code points' % (k, m)
+
+    def m_into_pathbuf(ex, st, fr, callee, a, depth):
+        return as_str(st, a[0])
+
+    def m_error_kind(ex, st, fr, callee, a, depth):
+        e = deref(st, a[0])
+        kinds = ctx.mir.enums.get('ErrorKind') or []
+        name = e.p[0] if isinstance(e, Opaque) and e.p else 'Other'
+        return EnumV('ErrorKind', name, {'NotFound': 0, 'PermissionDenied': 1, 'InvalidData': 21}.get(name, 40), ())
+    ex = Exec(ctx.mir, [(P(r'^<T as Into<PathBuf>>::into$'), m_into_pathbuf), (P(r'^std::io::Error::kind$'), m_error_kind)] + make_io_models(env_) + MODELS2 + BASE_MODELS)
+    st = State(pc=list(assume))
+    t0 = time.time()
+    outs = ex.run_fn(st, ctx.mir.one_fn(r'^builder::<impl at [^>]*>::from_file$'), [st.ref(SymStr(path))])
+    ctx.finish(ob, ex, t0)
+    ob.paths = len(outs)
+    bads = []
+    for o in outs:
+        if variant == 'missing':
+            cls = 'panic' if o.panic else 'returned'
+            ob.classes_seen[cls] = ob.classes_seen.get(cls, 0) + 1
+            ok_ = bool(o.panic) and 'could not be found' in str(o.panic)
+            bads.append(z3.And(*o.st.pc, z3.BoolVal(not ok_)))
+            continue
+        if o.panic:
+            bads.append(z3.And(*o.st.pc))
+            ob.classes_seen['panic'] = ob.classes_seen.get('panic', 0) + 1
+            continue
+        b = o.val if isinstance(o.val, TupV) else deref(o.st, o.val)
+        got = [list(as_str(o.st, x).items) for x in deref(o.st, b.get('test_cases')).items]
+        ob.classes_seen['builder'] = ob.classes_seen.get('builder', 0) + 1
+        bads.append(z3.And(*o.st.pc, z3.Not(same_lists(got, lines))))
+    allv = [v for l in lines for v in l]
+    ob.verdict = decide(ob.qid, assume + ob.defs, z3.Or(*bads) if bads else z3.BoolVal(True), allv + path, all_sat=True,
+                        max_models=ctx.cap('Q12f'), second=ctx.second, workdir=ctx.workdir, second_timeout_s=getattr(ctx, 'second_timeout', 60),
+                        block_vars=allv or None)
     return ob
